@@ -291,7 +291,7 @@ def nb_prange(eng, st, args, kwargs, line):
 
 @model("listmethod.append")
 def list_append(eng, st, args, kwargs, line):
-    args[0].items.append(args[1])
+    eng.writable(st, args[0], line).items.append(args[1])
     return val(st, NONE)
 
 
@@ -313,7 +313,7 @@ def dict_update(eng, st, args, kwargs, line):
     d, other = args[0], args[1]
     if not isinstance(other, VDict):
         raise OutOfSubset(f"line {line}: dict.update({other!r})")
-    d.d.update(other.d)
+    eng.writable(st, d, line).d.update(other.d)
     return val(st, NONE)
 
 
@@ -382,7 +382,18 @@ def arr_ravel(eng, st, args, kwargs, line):
         raise OutOfSubset(f"line {line}: ravel of a strided view (copy)")
     if isinstance(a, VArr2) and smt.conc_int(a.s1) == 1 and eng.entails(st, a.s0 == a.n1):
         return val(st, VArr(a.obj, a.off, z3.IntVal(1), smt.som(a.n0 * a.n1)))
-    raise OutOfSubset(f"line {line}: ravel of a non-contiguous 2-D view (copy)")
+    if isinstance(a, VArr2):
+        # ravel of a non-contiguous 2-D view (e.g. a transposed block) copies in row-major order of the VIEW:
+        # a fresh array R with R[n1*i + j] == view[i, j] for every in-range (i, j) and length n0*n1 (A-NP)
+        eng.assume_tag("A-NP")
+        kind = st.hmeta[a.obj]["kind"]
+        r = new_array(eng, st, [smt.som(a.n0 * a.n1)], kind, st.hmeta[a.obj].get("dtype"), None, "ravel")
+        i, j = z3.Int("i!rv"), z3.Int("j!rv")
+        lhs = z3.Select(st.heap[r.obj], smt.som(a.n1 * i + j))
+        rhs = z3.Select(st.heap[a.obj], smt.som(a.off + a.s0 * i + a.s1 * j))
+        st.assume(z3.ForAll([i, j], z3.Implies(z3.And(0 <= i, i < a.n0, 0 <= j, j < a.n1), lhs == rhs), patterns=[lhs]))
+        return val(st, r)
+    raise OutOfSubset(f"line {line}: ravel of {a!r}")
 
 
 @model("arrmethod.fill")
